@@ -241,8 +241,9 @@ Proof. split; [in_prod|vm_compute; reflexivity]. Qed.
 
 (* ---- views.  In the composed model ONE record is created at the authorization endpoint from the request and
         from two environment functions - sub_of (user, client): the subject identifier (its consistency across
-        endpoints is C18), filter_scopes (client, requested): the granted scope (that every token minted from the
-        grant and the token response carry exactly it is C05) - and the nonce of the request (returned unchanged:
+        endpoints is C18), filter_scopes (client, requested): the granted scope (here ANY function; the function the
+        code computes and what every view states when requested and granted differ: C12_granted_scope ... below)
+        - and the nonce of the request (returned unchanged:
         C08/C09).  Every observation point (provider session, token response, JWT access token, introspection,
         userinfo, ID Token, relying party) shows a projection of that record, so all views agree, for ALL users,
         clients, scopes, nonces, times and lifetimes.  Both clocks read `now`; see C12_rp_expiry_skew otherwise. *)
@@ -323,4 +324,101 @@ Example C12_views_nonvacuous :
   all_agree (all_views SrcToken SrcToken true s 1700000000 1700000000) = true
   /\ all_agree (all_views SrcAuthz SrcNone true s 1700000000 1700000000) = true
   /\ all_agree (all_views SrcToken SrcToken true s 1700000000 1700000007) = false.
+Proof. repeat split; vm_compute; reflexivity. Qed.
+
+
+(* ---- requested scope vs granted scope.  The scope a relying party asks for and the scope it is granted differ as
+        soon as the request names a value the provider does not know (dropped without an error: the regenerated
+        op_deny_unknown_scopes is false) or one the operator has not put into the client's allowed_scopes.  The
+        granted scope is a function of three things - the requested scope, the provider's scopes, the client's
+        allowed scopes (None: its record has none) - for ALL lists of scope values: *)
+Theorem C12_granted_scope : forall provider al req x,
+  In x (filter_scopes provider al req) <-> In x req /\ In x (allowed_scopes_of provider al).
+Proof. exact filter_scopes_char. Qed.
+Print Assumptions C12_granted_scope.
+
+(* requested /\ provider scopes /\ the client's allowed scopes *)
+Theorem C12_granted_scope_intersection : forall provider al req x,
+  match al with Some a => incl a provider | None => True end ->
+  (In x (filter_scopes provider al req) <->
+   In x req /\ In x provider /\ match al with Some a => In x a | None => True end).
+Proof. exact filter_scopes_intersection. Qed.
+Print Assumptions C12_granted_scope_intersection.
+
+(* "requested" and "granted" coincide exactly when every requested value is allowed *)
+Theorem C12_granted_is_requested_iff : forall provider al req,
+  filter_scopes provider al req = req <-> incl req (allowed_scopes_of provider al).
+Proof. exact filter_scopes_all_or_less. Qed.
+Print Assumptions C12_granted_is_requested_iff.
+
+Theorem C12_unknown_scopes_dropped : op_deny_unknown_scopes = false.
+Proof. exact unknown_scopes_dropped. Qed.
+Print Assumptions C12_unknown_scopes_dropped.
+
+(* every view of the record created for (client's allowed scopes, requested scope) that states a scope states the
+   granted scope, which lies within the requested scope; the provider session, the relying party, the response
+   that carries the access token, introspection and the JWT access token all state one.  For every client, subject,
+   allowed / requested scope, nonce, time, lifetime, artefact source and both clocks. *)
+Theorem C12_scope_views_granted :
+  forall client sub al req nonce now at_life idt_life asrc isrc at_jwt now_op now_rp v l,
+  let s := grant_session client sub al req nonce now at_life idt_life in
+  In v (all_views asrc isrc at_jwt s now_op now_rp) -> v_scope v = Some l ->
+  l = granted_scope al req /\ incl l req
+  /\ (forall x, In x l <-> In x req /\ In x (allowed_scopes_of op_scopes al)).
+Proof. exact scope_views_granted. Qed.
+Print Assumptions C12_scope_views_granted.
+
+Theorem C12_scope_views_present : forall asrc isrc s now_op now_rp,
+  v_scope (view_session asrc isrc s) = Some (s_scope s)
+  /\ v_scope (view_rp asrc isrc s now_op now_rp) = Some (s_scope s)
+  /\ v_scope (view_token_response s now_op) = Some (s_scope s)
+  /\ v_scope (view_introspection s) = Some (s_scope s)
+  /\ v_scope (view_jwt_access_token s) = Some (s_scope s).
+Proof. exact scope_views_present. Qed.
+Print Assumptions C12_scope_views_present.
+
+(* a refresh request that states a scope: refused unless the stated scope lies within the scope the refresh token
+   stands for; the scope of the refresh is the stated one, else the one the token stands for *)
+Theorem C12_refresh_scope : forall g stated,
+  match stated with
+  | None => refresh_scope g stated = Some g
+  | Some n => (incl n g -> refresh_scope g stated = Some n) /\ (~ incl n g -> refresh_scope g stated = None)
+  end.
+Proof. exact refresh_scope_char. Qed.
+Print Assumptions C12_refresh_scope.
+
+(* ... and every view of the refreshed tokens states exactly the scope of THIS refresh, within the granted scope;
+   the views agree; client, subject and nonce are kept *)
+Theorem C12_views_after_scoped_refresh : forall g stated sc s r at_jwt now,
+  refresh_scope g stated = Some sc ->
+  let s' := refresh_session_scoped s r sc in
+  all_agree (all_views SrcToken SrcToken at_jwt s' now now) = true
+  /\ (forall v l, In v (all_views SrcToken SrcToken at_jwt s' now now) -> v_scope v = Some l -> l = sc)
+  /\ incl sc g
+  /\ s_client s' = s_client s /\ s_sub s' = s_sub s /\ s_nonce s' = s_nonce s.
+Proof. exact views_after_scoped_refresh. Qed.
+Print Assumptions C12_views_after_scoped_refresh.
+
+Example C12_scope_nonvacuous :
+  let al := Some [PS "openid"; PS "profile"; PS "email"; PS "offline_access"] in
+  let req := [PS "calendar"; PS "email"; PS "offline_access"; PS "openid"; PS "phone"] in
+  let g := [PS "email"; PS "offline_access"; PS "openid"] in
+  let s := grant_session (PS "c12-client") (PS "sub-1") al req (Some (PS "n-1")) 1700000000 600 300 in
+  granted_scope al req = g
+  /\ granted_scope None req = [PS "email"; PS "offline_access"; PS "openid"; PS "phone"]
+  /\ all_agree (all_views SrcToken SrcToken true s 1700000000 1700000000) = true
+  (* a token response that states the REQUESTED scope disagrees with every other view *)
+  /\ view_agree (mkView None None (Some req) None (Some 1700000600%Z) None) (view_introspection s) = false
+  /\ chk_grant (al, req, [g], mkViewsCase SrcToken SrcToken false s 1700000000 1700000000
+                   (view_session SrcToken SrcToken s) (Some (view_token_response s 1700000000))
+                   (Some (view_introspection s)) (Some (view_userinfo s)) (Some (view_id_token s))
+                   (view_rp SrcToken SrcToken s 1700000000 1700000000) None) = true
+  /\ chk_grant (al, req, [g], mkViewsCase SrcToken SrcToken false s 1700000000 1700000000
+                   (view_session SrcToken SrcToken s)
+                   (Some (mkView None None (Some req) None (Some 1700000600%Z) None))
+                   (Some (view_introspection s)) (Some (view_userinfo s)) (Some (view_id_token s))
+                   (view_rp SrcToken SrcToken s 1700000000 1700000000) None) = false
+  /\ refresh_scope g (Some [PS "offline_access"; PS "openid"]) = Some [PS "offline_access"; PS "openid"]
+  /\ refresh_scope g (Some [PS "openid"; PS "phone"]) = None
+  /\ refresh_scope g None = Some g.
 Proof. repeat split; vm_compute; reflexivity. Qed.
